@@ -9,15 +9,175 @@ TRUSTED_BASE = [
     "hand-written generic codec model coq/Model/Schema.v tied by a byte-exact three-way differential (real encoder/decoder, extracted model, independent layout encoder refEncode in harness/cmd/c04)",
     "coq/Golden/Schemas.v: the wire schemas pinned at the baseline commit; their fidelity to Apache Kafka's message definitions is reviewed for the core client APIs and otherwise trusted (no copy of Kafka's message JSON is available offline)",
     "extraction: ExtrOcamlBasic only; ocaml/kvio.ml.in + ocaml/c04_driver.ml; harness/kvfmt",
+    "Conn half: hand-written model coq/Model/ConnWriters.v of write.go / sizeof.go / protocol.go requestHeader / the request structs' size()+writeTo() / recordbatch.go, "
+    "tied byte-exact to the real kafka.Conn (harness/cmd/c04conn over an in-memory net.Conn, hooks /repo/verif_export_c04.go + verif_export_c11.go/_c06.go) and, independently, "
+    "to the protocol package (protocol.WriteRequest of the equivalent message, protocol.ReadRequest of the captured produce frames); ocaml/c04conn_driver.ml",
 ]
 ASSUMPTIONS = [
     "record sets inside produce/fetch are delegated to C05 (arrays that would contain a RecordSet stay empty at this level)",
     "float64 is carried as its 8 raw bytes",
     "both the default and the `unsafe` build of /repo/protocol are exercised (thorough tier: unsafe too)",
+    "Conn half: compression is opaque (the harness's marking codec stands for the real codecs; what is handed to the codec is compared with the model's record/message bytes); "
+    "CRC-32 / CRC-32C are those of coq/Lib/Crc.v; message times the Conn replaces by time.Now() (zero Message.Time) and deadline-derived timeouts are exercised through the "
+    "writers directly (via=direct) with explicit values, through the Conn with no deadline set",
 ]
 
 generate = S.generate
-setup = S.setup
+
+
+def setup():
+    S.setup()
+    L.go_build("c04conn")
+    L.ocaml_build("c04conn")
+
+
+# ---------------------------------------------------------------------------------------------
+# the Conn half: the hand-written request codec of kafka.Conn
+# ---------------------------------------------------------------------------------------------
+
+def conn_rounds(ctx):
+    return ctx.scale(20, 150)
+
+
+def conn_gen(seed, n):
+    gobin = L.go_build("c04conn")
+    rc, out, err, dt = L.sh([gobin, "-seed", str(seed), "-n", str(n)], timeout=3000)
+    if rc != 0:
+        raise L.Fail("correspondence", "harness cmd/c04conn crashed", (out[-1500:] + err[-2500:]))
+    return L.parse_cases(out)
+
+
+def conn_judge(cases, res, canon):
+    """Failure dicts and counters for the cases of cmd/c04conn.  res: the extracted ConnWriters
+    model on every case line; canon: the generic schema model on the bytes the real Conn wrote."""
+    failures, cnt = [], {}
+    def bump(k):
+        cnt[k] = cnt.get(k, 0) + 1
+    def fail(layer, what, c, **more):
+        if sum(1 for f in failures if f["what"].split(" [")[0] == what.split(" [")[0]) >= 3:
+            return
+        failures.append(dict(layer=layer, what="C04 (Conn): " + what,
+                             detail=json.dumps(dict(case=c["line"][:1200], go=c["go"][:600], model=str(res.get(c["id"]))[:600],
+                                                    feats=c["feats"], **more)),
+                             input=dict(case=c["line"], go=c["go"], model=res.get(c["id"]), harness="c04conn", **more)))
+    for c in cases:
+        m = str(res.get(c["id"], "MISSING"))
+        g = c["go"]
+        feats = c["feats"].split(",")
+        if c["op"] == "creq":
+            a = c["args"].split(" ")
+            api, ver = a[0], a[1]
+            tag = f"{api} v{int(ver, 16)}"
+            gt, mt = g.split(" "), m.split(" ")
+            gframe, mframe = gt[0], mt[0]
+            if m.startswith("EXN") or m in ("MISSING", "BADCASE"):
+                fail("correspondence", f"model driver could not evaluate a case [{tag}]", c)
+                continue
+            if gframe == "PANIC":
+                fail("property", f"the Conn panicked while writing a request [{tag}]", c)
+                continue
+            # (i) the property's predicate on the bytes the real Conn wrote
+            raw = bytes.fromhex(gframe) if gframe != "." else b""
+            if len(raw) < 14:
+                fail("property", f"the Conn wrote no complete request header [{tag}]", c)
+                continue
+            announced = int.from_bytes(raw[:4], "big", signed=True)
+            wellformed = announced == len(raw) - 4
+            if not wellformed:
+                fail("property", f"size prefix announces {announced} bytes but {len(raw) - 4} bytes follow it [{tag}]", c,
+                     announced=announced, sent=len(raw) - 4)
+            key, hver = int.from_bytes(raw[4:6], "big", signed=True), int.from_bytes(raw[6:8], "big", signed=True)
+            hcorr = int.from_bytes(raw[8:12], "big", signed=True)
+            cl = int.from_bytes(raw[12:14], "big", signed=True)
+            want_client = bytes.fromhex(a[3]) if a[3] != "." else b""
+            want_corr = int(a[2], 16)
+            if hver != int(ver, 16) or hcorr != want_corr or cl != len(want_client) or raw[14:14 + max(cl, 0)] != want_client:
+                fail("property", f"request header does not carry the version / correlation id / client id of the request [{tag}]", c,
+                     header=dict(key=key, version=hver, corr=hcorr, client_len=cl))
+            # (ii) the extracted ConnWriters model, byte for byte
+            if gframe != mframe:
+                layer = "property" if (not wellformed or canon.get(c["id"], "").startswith("canon=DIFF")) else "correspondence"
+                fail(layer, f"real Conn and the ConnWriters model write different bytes [{tag}]", c, canon_of_real=canon.get(c["id"]))
+                bump("frame:DIFF")
+            else:
+                bump("frame:same")
+            # (iii) the generic schema model on the captured bytes
+            cv = canon.get(c["id"], "MISSING")
+            bump(cv.split(":")[0] if "DIFF" not in cv else cv)
+            # (a pointer to "" as transactional id: only through the writers directly, the Conn never builds one)
+            if cv == "canon=ok-nonnull-strings" and "empty-nullable-str" not in feats and "txid-empty-nonnull" not in feats:
+                fail("property", f"frame is canonical only with nullable strings read as non-null, without an empty string in such a position [{tag}]", c)
+            elif cv not in ("canon=ok", "canon=ok-nonnull-strings"):
+                fail("property", f"the captured frame is not the canonical encoding under the regenerated schema ({cv}) [{tag}]", c, canon_of_real=cv)
+            for x in mt[1:]:
+                if x.startswith("inner="):
+                    bump(x)
+                    if x != "inner=ok":
+                        fail("property", f"what the Conn handed to the compression codec is not the model's message set / records [{tag}]", c)
+            # (iv) the protocol package on the same request
+            for x in gt[1:]:
+                k = x.split(":")[0]
+                if "DIFF" in x:
+                    bump(k + ":DIFF")
+                    fail("property", f"the two codecs of the library disagree ({k}): protocol package vs Conn [{tag}]", c, verdict=x[:400])
+                elif ":" in x and "skip" in x:
+                    bump(x)
+                else:
+                    bump(x)
+        elif c["op"] == "neg":
+            a = c["args"].split(" ")
+            sup = [int(x, 16) for x in a[2].split(",")]
+            if g != m:
+                fail("correspondence", "negotiated version differs from the model's apiVersionMap.negotiate", c)
+            if g not in ("none",) and "/" not in g and not g.startswith(("PANIC", "WRONG", "SHORT")):
+                v = int(g, 16)
+                if a[1] == "-":
+                    bump("neg:not-advertised-sent-v%d" % v)
+                    if v != 0:
+                        fail("property", "a version above 0 was sent for an API the broker did not advertise", c)
+                else:
+                    lo, hi = [int(x, 16) for x in a[1].split(":")]
+                    if v > hi or v not in sup:
+                        fail("property", f"request version {v} is above the advertised maximum {hi} or not supported by the client", c)
+                    bump("neg:below-advertised-min" if v < lo else "neg:within-range")
+            elif g == "none":
+                bump("neg:none-sent")
+            else:
+                fail("property", "version negotiation misbehaved: " + g[:80], c)
+        else:
+            if g != m:
+                fail("correspondence", f"{c['op']}: real Conn and model disagree", c)
+            bump(c["op"] + (":same" if g == m else ":DIFF"))
+    return failures, cnt
+
+
+def conn_correspondence(ctx):
+    model = L.ocaml_build("c04conn")
+    n = conn_rounds(ctx)
+    cases = conn_gen(ctx.seed, n)
+    res = L.run_model(model, "\n".join(c["line"] for c in cases) + "\n")
+    # the generic schema model on the bytes the real Conn wrote
+    lines = []
+    for c in cases:
+        if c["op"] != "creq":
+            continue
+        a = c["args"].split(" ")
+        fr = c["go"].split(" ")[0]
+        if fr in ("PANIC", "."):
+            continue
+        key = int.from_bytes(bytes.fromhex(fr[8:12]), "big", signed=True) if len(fr) >= 12 else 0
+        lines.append(f"{c['id']} canonf {L_hex(key)} {a[1]} {a[2]} {a[3]} {fr}")
+    canon = L.run_model(model, "\n".join(lines) + "\n") if lines else {}
+    failures, cnt = conn_judge(cases, res, canon)
+    for f in failures:
+        f["input"]["seed"], f["input"]["rounds"] = ctx.seed, n
+    ev, dn, hist = L.coverage_counts(cases, trivial_feats=("",))
+    return dict(cases=cases, failures=failures, evaluations=ev, distinct_nontrivial=dn,
+                hist={"conn:" + k: v for k, v in hist.items()}, counters=cnt, rounds=n)
+
+
+def L_hex(v):
+    return ("-%x" % -v) if v < 0 else ("%x" % v)
 
 
 def correspondence(ctx):
@@ -85,13 +245,28 @@ def correspondence(ctx):
                                          detail=c["line"][:500], input=dict(case=c["line"], go=c["go"], unsafe=ures[k])))
                     break
     ev, dn, hist = L.coverage_counts(cases, trivial_feats=("req", "res"))
+    # ---- the Conn half: real kafka.Conn vs the ConnWriters model vs the generic schema model vs the protocol package
+    cc = conn_correspondence(ctx)
+    failures += cc["failures"]
+    ev += cc["evaluations"]
+    dn += cc["distinct_nontrivial"]
+    hist.update(cc["hist"])
     return dict(evaluations=ev, distinct_nontrivial=dn, hist=hist,
                 rule="for every registered (api, direction, version) — 334 schemas from the translator — values generated by reflection from one PRNG "
                      "(boundary ints, empty/nil/long strings and bytes incl. the 127/128 compact-length boundary, nil/empty/nested arrays, tagged fields), "
                      "encoded by the real WriteRequest/WriteResponse, by the extracted model and by an independent layout encoder, byte-compared, "
-                     "then decoded by the real ReadRequest/ReadResponse and by the model and compared as values; non-trivial = feature set beyond {req|res}",
-                samples=[c["line"][:240] + " | " + c["go"][:120] for c in cases[:2] + cases[len(cases)//2:len(cases)//2+2]],
-                failures=failures, extra=dict(schemas=len({c["args"].split(" ")[0] for c in cases}), unknown_tag_frames=len(ut)))
+                     "then decoded by the real ReadRequest/ReadResponse and by the model and compared as values; non-trivial = feature set beyond {req|res}. "
+                     "Conn half (op creq/neg/fetchmin/saslraw): every operation of kafka.Conn at every version it can negotiate (produce 2/3/7, fetch 2/5/10, list-offsets 1, metadata 1/6, "
+                     "find-coordinator 0, join-group 1/2, sync-group 0, heartbeat 0, leave-group 0, offset-commit 2, offset-fetch 1, list-groups 1, api-versions 0, create-topics 0/1/2, "
+                     "delete-topics 0/1, sasl-handshake 0/1, sasl-authenticate 0, raw sasl token) run on an in-memory connection whose ApiVersions answer pins the version, generated arguments "
+                     "(nil/empty/long keys, values, strings; headers; equal, sub-millisecond, distinct and zero message times; 1..70 messages; boundary ints; default/explicit client id); the bytes "
+                     "written are (i) checked against the property directly (size prefix = bytes that follow, header fields), (ii) compared byte for byte with the extracted ConnWriters model, "
+                     "(iii) decoded and re-encoded by the generic schema model under the regenerated schemas (canonical), (iv) compared with protocol.WriteRequest of the equivalent protocol "
+                     "message / decoded by protocol.ReadRequest; negotiated versions against random advertised ranges",
+                samples=[c["line"][:240] + " | " + c["go"][:120] for c in cases[:2] + cases[len(cases)//2:len(cases)//2+2]]
+                        + [c["line"][:240] + " | " + c["go"][:120] for c in cc["cases"][12:13] + cc["cases"][40:41]],
+                failures=failures, extra=dict(schemas=len({c["args"].split(" ")[0] for c in cases}), unknown_tag_frames=len(ut),
+                                              conn_requests=cc["evaluations"], conn_rounds=cc["rounds"], conn_verdicts=cc["counters"]))
 
 
 def search(ctx, violations):
@@ -111,6 +286,18 @@ def search(ctx, violations):
             if r != real:
                 return dict(case=c["line"], go=c["go"], canonical_frame_of_pinned_schema=r,
                             what="the frame the real encoder writes is not the canonical encoding of the pinned (Golden) schema for this api/version")
+    except L.Fail:
+        pass
+    # the Conn half: more rounds with other seeds; a failing case line is itself the replay input
+    try:
+        model = L.ocaml_build("c04conn")
+        for k in range(1, 4):
+            sub = type(ctx)(ctx.prop, "quick", ctx.seed + 7000 * k)
+            sub.scale = lambda q, t: 20
+            cc = conn_correspondence(sub)
+            for f in cc["failures"]:
+                if f.get("input") and f["layer"] == "property":
+                    return f["input"]
     except L.Fail:
         pass
     ctx.seed += 1000
@@ -137,6 +324,14 @@ def replay(ctx, payload):
     print("case:", inp["case"][:600])
     print("real codec at the time:", str(inp.get("go"))[:600])
     S.generate()
+    if inp.get("harness") == "c04conn":
+        # the generator is deterministic: the same seed and number of rounds give the same case line
+        model = L.ocaml_build("c04conn")
+        cid = inp["case"].split(" ", 1)[0]
+        now = [c for c in conn_gen(inp.get("seed", 1), inp.get("rounds", 6)) if c["id"] == cid and c["line"] == inp["case"]]
+        print("real Conn now:", now[0]["go"][:600] if now else "(the generator no longer produces this line)")
+        print("ConnWriters model now:", L.run_model(model, inp["case"] + "\n"))
+        return 1
     model = L.ocaml_build("c04")
     print("model now:", L.run_model(model, inp["case"] + "\n"))
     return 1
